@@ -261,43 +261,50 @@ func c09ElemOf(v ssa.Value, slice map[ssa.Value]bool) bool {
 	return true
 }
 
-// c09StoreHelpers locates the unexported helpers of oci.Store by role.
+// c09Helpers locates the unexported helpers of oci.Store by role, anywhere in
+// the in-package call tree below the exported operation (depth 3): it does not
+// matter whether a piece of the operation was extracted into a helper.
 type c09Helpers struct {
-	del, gc   *ssa.Function
-	deleteOne *ssa.Function // calls graph.Memory.Remove and Storage.Delete
-	isTagged  *ssa.Function // bool helper calling resolver.Memory.TagSet
-	gcIndex   *ssa.Function // callee of GC that replaces s.tagResolver
+	store      *types.Named
+	del, gc    *ssa.Function
+	deleteOne  *ssa.Function   // calls graph.Memory.Remove and Storage.Delete
+	cascade    []*ssa.Function // functions below Delete that call deleteOne (where the follow-up work is decided)
+	isTagged   *ssa.Function   // bool helper calling resolver.Memory.TagSet
+	gcIndex    *ssa.Function   // function below GC that replaces s.tagResolver
+	sweepHosts []*ssa.Function // functions below GC that remove files
 }
 
 func c09FindHelpers(c *Ctx, rule string) *c09Helpers {
-	h := &c09Helpers{del: c.P.Fn("content/oci", "Store.Delete"), gc: c.P.Fn("content/oci", "Store.GC")}
-	if h.del == nil || h.gc == nil {
-		c.LostAnchor(rule, "~/content/oci.Store.Delete / Store.GC")
+	h := &c09Helpers{del: c.P.Fn("content/oci", "Store.Delete"), gc: c.P.Fn("content/oci", "Store.GC"), store: c.P.Named("content/oci", "Store")}
+	if h.del == nil || h.gc == nil || h.store == nil {
+		c.LostAnchor(rule, "~/content/oci.Store / Store.Delete / Store.GC")
 		return nil
 	}
-	for _, call := range Calls(h.del, func(string) bool { return true }) {
-		g := StaticCallee(call)
-		if g == nil || fnPkgPath(g) != pkgPath("content/oci") {
-			continue
-		}
+	below := c09ReachableInPkg(h.del, 3)
+	for _, g := range below {
 		if len(CallsTo(g, c09nRemove)) > 0 && len(CallsTo(g, c09nStDelete)) > 0 {
 			h.deleteOne = g
 		}
-		if len(CallsTo(g, c09nTagSet)) > 0 && g.Signature.Results().Len() == 1 && types.Identical(g.Signature.Results().At(0).Type(), types.Typ[types.Bool]) {
+		if g != h.del && len(CallsTo(g, c09nTagSet)) > 0 && g.Signature.Results().Len() == 1 && types.Identical(g.Signature.Results().At(0).Type(), types.Typ[types.Bool]) {
 			h.isTagged = g
 		}
 	}
-	store := c.P.Named("content/oci", "Store")
-	for _, call := range Calls(h.gc, func(string) bool { return true }) {
-		g := StaticCallee(call)
-		if g == nil || store == nil || fnPkgPath(g) != pkgPath("content/oci") {
-			continue
+	if h.deleteOne != nil {
+		for _, g := range below {
+			if g != h.deleteOne && len(CallsTo(g, fnFullName(h.deleteOne))) > 0 {
+				h.cascade = append(h.cascade, g)
+			}
 		}
+	}
+	for _, g := range c09ReachableInPkg(h.gc, 3) {
 		AllInstrs(g, func(in ssa.Instruction) {
-			if s, ok := in.(*ssa.Store); ok && c09IsFieldAddrOf(s.Addr, store, "tagResolver") {
+			if s, ok := in.(*ssa.Store); ok && c09IsFieldAddrOf(s.Addr, h.store, "tagResolver") {
 				h.gcIndex = g
 			}
 		})
+		if len(Calls(g, func(n string) bool { return n == "os.Remove" || n == "os.RemoveAll" || n == "(*os.Root).Remove" })) > 0 {
+			h.sweepHosts = append(h.sweepHosts, g)
+		}
 	}
 	return h
 }
@@ -311,79 +318,102 @@ func c09R3(c *Ctx) {
 	if h == nil {
 		return
 	}
-	del := h.del
-	dn := FnName(del)
-	recv := ssa.Value(del.Params[0])
-	autoGC, _ := BoolTests(del, c09FieldLoads(del, recv, "AutoGC"))
-	if h.deleteOne == nil {
-		c.LostAnchor(R3, dn+": helper that removes one node (calls graph.Memory.Remove and Storage.Delete)")
+	dn := FnName(h.del) // keys are anchored at the exported operation, whichever helper hosts the logic
+	if h.deleteOne == nil || len(h.cascade) == 0 {
+		c.LostAnchor(R3, dn+": helper that removes one node (calls graph.Memory.Remove and Storage.Delete) and its caller")
 		return
 	}
-	delCalls := CallsTo(del, fnFullName(h.deleteOne))
-	// (a) referrers
-	refCalls := CallsTo(del, c09nReferrers)
-	if len(refCalls) == 0 {
-		c.LostAnchor(R3, dn+": call of registry.Referrers")
-	}
-	for _, rc := range refCalls {
-		head := rc.Common().Args[2]
-		ok := c09Guarded(rc.(ssa.Instruction), autoGC)
-		c.Check(R3, dn+"|referrers-only-under-AutoGC", rc.Pos(), ok, ifelse(ok, "registry.Referrers is reached only on the s.AutoGC edge", "referrers are collected (and then deleted) although AutoGC is off"))
-		isMan, _, _ := CallTests(del, c09nIsMan, func(x *ssa.Call) bool { return c09SameKey(x.Call.Args[0], head) })
-		ok = c09Guarded(rc.(ssa.Instruction), isMan)
-		c.Check(R3, dn+"|referrers-only-of-manifests", rc.Pos(), ok, ifelse(ok, "registry.Referrers(head) is reached only on the IsManifest(head) edge", "referrers are looked up for a non-manifest node"))
-		same := len(delCalls) > 0
-		for _, dc := range delCalls {
-			if !c09SameKey(dc.Common().Args[2], head) {
-				same = false
-			}
-		}
-		c.Check(R3, dn+"|referrers-of-the-deleted-node", rc.Pos(), same, ifelse(same, "the node whose referrers are enqueued is the node that is deleted", "referrers are collected for another node than the one being deleted"))
-		// the referrers are enqueued as a whole only after the call succeeded
-		if e := ErrOf(rc); e != nil {
-			ne, _, _ := NilTests(del, Aliases(e))
-			refs := ResultOf(rc, 0)
-			for _, ap := range CallsTo(del, "builtin:append") {
-				if _, whole := c09AppendedElems(ap); whole != nil && refs != nil && Aliases(refs)[whole] {
-					ok := c09Guarded(ap.(ssa.Instruction), ne)
-					c.Check(R3, dn+"|referrers-enqueued-on-success", ap.Pos(), ok, "the referrers list is enqueued only when registry.Referrers returned no error")
-				}
-			}
-		}
-	}
-	// (b) danglings
 	if h.isTagged == nil {
 		c.LostAnchor(R3, dn+": isTagged helper (bool function calling resolver.Memory.TagSet)")
 	}
-	nEnq := 0
-	for _, dc := range delCalls {
-		dang := ResultOf(dc, 0)
-		if dang == nil {
-			continue
+	autoGCEdges := func(fn *ssa.Function, _ c09Vals) []Edge {
+		t, _ := BoolTests(fn, c08StoreFieldLoads(fn, h.store, "AutoGC"))
+		return t
+	}
+	nRef, nEnq := 0, 0
+	for _, host := range c09ReachableInPkg(h.del, 3) {
+		delCalls := CallsTo(host, fnFullName(h.deleteOne))
+		// (a) referrers
+		for _, rc := range CallsTo(host, c09nReferrers) {
+			nRef++
+			at := rc.(ssa.Instruction)
+			head := rc.Common().Args[2]
+			ok := c09GuardedUp(c.P, at, nil, autoGCEdges, 2)
+			c.Check(R3, dn+"|referrers-only-under-AutoGC", rc.Pos(), ok, ifelse(ok, "registry.Referrers is reached only on the s.AutoGC edge", "referrers are collected (and then deleted) although AutoGC is off"))
+			ok = c09GuardedUp(c.P, at, c09Vals{"node": head}, func(fn *ssa.Function, v c09Vals) []Edge {
+				if v["node"] == nil {
+					return nil
+				}
+				t, _, _ := CallTests(fn, c09nIsMan, func(x *ssa.Call) bool { return c09SameKey(x.Call.Args[0], v["node"]) })
+				return t
+			}, 2)
+			c.Check(R3, dn+"|referrers-only-of-manifests", rc.Pos(), ok, ifelse(ok, "registry.Referrers(head) is reached only on the IsManifest(head) edge", "referrers are looked up for a non-manifest node"))
+			// the node whose referrers follow is the node that is deleted
+			same := false
+			headO, _ := c09Origins(c.P, head, 2, h.del)
+			for _, ch := range h.cascade {
+				for _, dc := range CallsTo(ch, fnFullName(h.deleteOne)) {
+					same = true
+					dO, _ := c09Origins(c.P, dc.Common().Args[2], 2, h.del)
+					for _, a := range headO {
+						hit := false
+						for _, b := range dO {
+							if c09SameKey(a, b) {
+								hit = true
+							}
+						}
+						if !hit {
+							same = false
+						}
+					}
+				}
+			}
+			c.Check(R3, dn+"|referrers-of-the-deleted-node", rc.Pos(), same, ifelse(same, "the node whose referrers are enqueued is the node that is deleted", "referrers are collected for another node than the one being deleted"))
+			// the referrers are enqueued as a whole only after the call succeeded
+			if e := ErrOf(rc); e != nil {
+				ne, _, _ := NilTests(host, Aliases(e))
+				refs := ResultOf(rc, 0)
+				for _, ap := range CallsTo(host, "builtin:append") {
+					if _, whole := c09AppendedElems(ap); whole != nil && refs != nil && Aliases(refs)[whole] {
+						ok := c09Guarded(ap.(ssa.Instruction), ne)
+						c.Check(R3, dn+"|referrers-enqueued-on-success", ap.Pos(), ok, "the referrers list is enqueued only when registry.Referrers returned no error")
+					}
+				}
+			}
 		}
-		dAliases := Aliases(dang)
-		for _, ap := range CallsTo(del, "builtin:append") {
-			elems, whole := c09AppendedElems(ap)
-			if whole != nil && dAliases[whole] {
-				c.Violation(R3, dn+"|dangling-enqueued-unfiltered", ap.Pos(), "the dangling nodes returned by the delete are enqueued as a whole, without the !isTagged filter: tagged manifests would be deleted")
-				nEnq++
+		// (b) danglings
+		for _, dc := range delCalls {
+			dang := ResultOf(dc, 0)
+			if dang == nil {
 				continue
 			}
-			for _, e := range elems {
-				if !c09ElemOf(e, dAliases) {
+			dAliases := Aliases(dang)
+			for _, ap := range CallsTo(host, "builtin:append") {
+				elems, whole := c09AppendedElems(ap)
+				if whole != nil && dAliases[whole] {
+					c.Violation(R3, dn+"|dangling-enqueued-unfiltered", ap.Pos(), "the dangling nodes returned by the delete are enqueued as a whole, without the !isTagged filter: tagged manifests would be deleted")
+					nEnq++
 					continue
 				}
-				nEnq++
-				ok := c09Guarded(ap.(ssa.Instruction), autoGC)
-				c.Check(R3, dn+"|dangling-only-under-AutoGC", ap.Pos(), ok, ifelse(ok, "a dangling node is enqueued only on the s.AutoGC edge", "dangling nodes are deleted although AutoGC is off"))
-				var notTagged []Edge
-				if h.isTagged != nil {
-					_, notTagged, _ = CallTests(del, fnFullName(h.isTagged), func(x *ssa.Call) bool { return c09SameKey(x.Call.Args[len(x.Call.Args)-1], e) })
+				for _, e := range elems {
+					if !c09ElemOf(e, dAliases) {
+						continue
+					}
+					nEnq++
+					ok := c09GuardedUp(c.P, ap.(ssa.Instruction), nil, autoGCEdges, 2)
+					c.Check(R3, dn+"|dangling-only-under-AutoGC", ap.Pos(), ok, ifelse(ok, "a dangling node is enqueued only on the s.AutoGC edge", "dangling nodes are deleted although AutoGC is off"))
+					var notTagged []Edge
+					if h.isTagged != nil {
+						_, notTagged, _ = CallTests(host, fnFullName(h.isTagged), func(x *ssa.Call) bool { return c09SameKey(x.Call.Args[len(x.Call.Args)-1], e) })
+					}
+					ok = c09Guarded(ap.(ssa.Instruction), notTagged)
+					c.Check(R3, dn+"|dangling-only-if-untagged", ap.Pos(), ok, ifelse(ok, "a dangling node d is enqueued only on the !isTagged(d) edge", "a dangling node is enqueued for deletion without the !isTagged(d) test of that same node: a tagged manifest can be deleted"))
 				}
-				ok = c09Guarded(ap.(ssa.Instruction), notTagged)
-				c.Check(R3, dn+"|dangling-only-if-untagged", ap.Pos(), ok, ifelse(ok, "a dangling node d is enqueued only on the !isTagged(d) edge", "a dangling node is enqueued for deletion without the !isTagged(d) test of that same node: a tagged manifest can be deleted"))
 			}
 		}
+	}
+	if nRef == 0 {
+		c.LostAnchor(R3, dn+": call of registry.Referrers")
 	}
 	if nEnq == 0 {
 		c.LostAnchor(R3, dn+": enqueue of the dangling nodes returned by the delete helper")
@@ -395,111 +425,125 @@ func c09R3(c *Ctx) {
 
 // (c) delete helper: Untag only of references whose descriptor equals the target.
 func c09R3Delete(c *Ctx, R3 string, h *c09Helpers) {
-	f := h.deleteOne
-	fn := FnName(f)
-	recv := ssa.Value(f.Params[0])
-	resolverLoads := c09FieldLoads(f, recv, "tagResolver")
+	d := h.deleteOne
+	fn := FnName(d)
 	// the target: the descriptor handed to graph.Remove and Storage.Delete
 	var target ssa.Value
-	for _, rc := range CallsTo(f, c09nRemove) {
+	for _, rc := range CallsTo(d, c09nRemove) {
 		target = rc.Common().Args[1]
 	}
 	okT := target != nil
-	for _, sc := range CallsTo(f, c09nStDelete) {
+	for _, sc := range CallsTo(d, c09nStDelete) {
 		if !c09SameKey(sc.Common().Args[2], target) {
 			okT = false
 		}
 	}
-	c.Check(R3, fn+"|removes-and-deletes-the-same-node", f.Pos(), okT, "graph.Remove and Storage.Delete receive the same descriptor")
+	c.Check(R3, fn+"|removes-and-deletes-the-same-node", d.Pos(), okT, "graph.Remove and Storage.Delete receive the same descriptor")
+	// sameAsTarget: v (in function f, at or below the delete helper) denotes the node being removed
+	sameAsTarget := func(v ssa.Value) bool {
+		os, ok := c09Origins(c.P, v, 2, d)
+		if !ok || len(os) == 0 {
+			return false
+		}
+		for _, o := range os {
+			if !c09SameKey(o, target) {
+				return false
+			}
+		}
+		return true
+	}
 	n := 0
-	for _, uc := range CallsTo(f, c09nUntag) {
-		args := uc.Common().Args
-		if !resolverLoads[args[0]] {
-			continue
-		}
-		n++
-		// the reference is the key of a range over the resolver map — directly, or
-		// collected first into a slice that is then ranged over
-		type keySite struct {
-			at  ssa.Instruction
-			key ssa.Value
-		}
-		sites := []keySite{{uc.(ssa.Instruction), args[1]}}
-		if rs := Roots(args[1]); len(rs) == 1 {
-			if ld, ok := rs[0].(*ssa.UnOp); ok && ld.Op == token.MUL {
-				if ia, ok := ld.X.(*ssa.IndexAddr); ok {
-					sites = nil
-					acc := map[ssa.Value]bool{}
-					var grow func(v ssa.Value)
-					grow = func(v ssa.Value) {
-						if v == nil || acc[v] {
-							return
-						}
-						acc[v] = true
-						switch u := v.(type) {
-						case *ssa.Phi:
-							for _, e := range u.Edges {
-								grow(e)
-							}
-						case *ssa.Call:
-							if CalleeName(u) == "builtin:append" {
-								grow(u.Call.Args[0])
-							}
-						}
-					}
-					grow(ia.X)
-					for _, ap := range CallsTo(f, "builtin:append") {
-						if acc[ap.Value()] {
-							elems, whole := c09AppendedElems(ap)
-							if whole != nil {
-								sites = append(sites, keySite{ap.(ssa.Instruction), nil})
-							}
-							for _, e := range elems {
-								sites = append(sites, keySite{ap.(ssa.Instruction), e})
-							}
-						}
-					}
-				}
-			}
-		}
-		okAll, undecided := len(sites) > 0, false
-		for _, ks := range sites {
-			var nx ssa.Value
-			if ks.key != nil {
-				for _, r := range Roots(ks.key) {
-					if e, ok := r.(*ssa.Extract); ok && e.Index == 1 {
-						if _, isNext := e.Tuple.(*ssa.Next); isNext {
-							nx = e.Tuple
-						}
-					}
-				}
-			}
-			if nx == nil {
-				undecided = true
+	for _, f := range c09ReachableInPkg(d, 2) {
+		resolverLoads := c08StoreFieldLoads(f, h.store, "tagResolver")
+		for _, uc := range CallsTo(f, c09nUntag) {
+			args := uc.Common().Args
+			if !resolverLoads[args[0]] {
 				continue
 			}
-			eq, _, _ := CallTests(f, c09nEqual, func(x *ssa.Call) bool {
-				a, b := x.Call.Args[0], x.Call.Args[1]
-				isVal := func(v ssa.Value) bool {
-					for _, r := range Roots(v) {
-						if e, ok := r.(*ssa.Extract); !ok || e.Index != 2 || e.Tuple != nx {
-							return false
+			n++
+			// the reference is the key of a range over the resolver map — directly, or
+			// collected first into a slice that is then ranged over
+			type keySite struct {
+				at  ssa.Instruction
+				key ssa.Value
+			}
+			sites := []keySite{{uc.(ssa.Instruction), args[1]}}
+			if rs := Roots(args[1]); len(rs) == 1 {
+				if ld, ok := rs[0].(*ssa.UnOp); ok && ld.Op == token.MUL {
+					if ia, ok := ld.X.(*ssa.IndexAddr); ok {
+						sites = nil
+						acc := map[ssa.Value]bool{}
+						var grow func(v ssa.Value)
+						grow = func(v ssa.Value) {
+							if v == nil || acc[v] {
+								return
+							}
+							acc[v] = true
+							switch u := v.(type) {
+							case *ssa.Phi:
+								for _, e := range u.Edges {
+									grow(e)
+								}
+							case *ssa.Call:
+								if CalleeName(u) == "builtin:append" {
+									grow(u.Call.Args[0])
+								}
+							}
+						}
+						grow(ia.X)
+						for _, ap := range CallsTo(f, "builtin:append") {
+							if acc[ap.Value()] {
+								elems, whole := c09AppendedElems(ap)
+								if whole != nil {
+									sites = append(sites, keySite{ap.(ssa.Instruction), nil})
+								}
+								for _, e := range elems {
+									sites = append(sites, keySite{ap.(ssa.Instruction), e})
+								}
+							}
 						}
 					}
-					return true
 				}
-				return (isVal(a) && c09SameKey(b, target)) || (isVal(b) && c09SameKey(a, target))
-			})
-			if !c09Guarded(ks.at, eq) {
-				okAll = false
 			}
+			okAll, undecided := len(sites) > 0, false
+			for _, ks := range sites {
+				var nx ssa.Value
+				if ks.key != nil {
+					for _, r := range Roots(ks.key) {
+						if e, ok := r.(*ssa.Extract); ok && e.Index == 1 {
+							if _, isNext := e.Tuple.(*ssa.Next); isNext {
+								nx = e.Tuple
+							}
+						}
+					}
+				}
+				if nx == nil {
+					undecided = true
+					continue
+				}
+				eq, _, _ := CallTests(f, c09nEqual, func(x *ssa.Call) bool {
+					a, b := x.Call.Args[0], x.Call.Args[1]
+					isVal := func(v ssa.Value) bool {
+						for _, r := range Roots(c09CellOrValue(v)) {
+							if e, ok := r.(*ssa.Extract); !ok || e.Index != 2 || e.Tuple != nx {
+								return false
+							}
+						}
+						return true
+					}
+					return (isVal(a) && sameAsTarget(b)) || (isVal(b) && sameAsTarget(a))
+				})
+				if !c09Guarded(ks.at, eq) {
+					okAll = false
+				}
+			}
+			if undecided {
+				c.Undecided(R3, fn+"|untag-only-equal-descriptors", uc.Pos(), "the reference passed to Untag is not the key of a range over the resolver map (directly or via a collected slice): shape not recognised")
+				continue
+			}
+			ok := okAll
+			c.Check(R3, fn+"|untag-only-equal-descriptors", uc.Pos(), ok, ifelse(ok, "Untag(ref) is reached only on the content.Equal(resolver[ref], target) edge", "a reference is untagged without content.Equal(resolver[ref], target): another node's tag can be removed"))
 		}
-		if undecided {
-			c.Undecided(R3, fn+"|untag-only-equal-descriptors", uc.Pos(), "the reference passed to Untag is not the key of a range over the resolver map (directly or via a collected slice): shape not recognised")
-			continue
-		}
-		ok := okAll
-		c.Check(R3, fn+"|untag-only-equal-descriptors", uc.Pos(), ok, ifelse(ok, "Untag(ref) is reached only on the content.Equal(resolver[ref], target) edge", "a reference is untagged without content.Equal(resolver[ref], target): another node's tag can be removed"))
 	}
 	if n == 0 {
 		c.LostAnchor(R3, fn+": Untag of the deleted node's references")
@@ -573,6 +617,49 @@ func c09R3Remove(c *Ctx, R3 string) {
 					}
 				}
 			})
+			// … or the set became empty according to a helper of the package that
+			// returns true only when len(predecessors[key]) == 0
+			te, _ := c09BoolCallEdges(f, func(call *ssa.Call, g *ssa.Function) (int, bool) {
+				if g.Signature.Results().Len() == 0 || fnPkgPath(g) != fnPkgPath(f) {
+					return 0, false
+				}
+				for i, a := range call.Call.Args {
+					if i >= len(g.Params) || !c09SameKey(a, key) {
+						continue
+					}
+					var guards []Edge
+					sets := map[ssa.Value]bool{}
+					AllInstrs(g, func(in ssa.Instruction) {
+						lk, ok := in.(*ssa.Lookup)
+						if !ok || !c09IsLoadOfField(lk.X, mem, "predecessors") {
+							return
+						}
+						if pf, pi := c09ParamOf(lk.Index); pf != g || pi != i {
+							return
+						}
+						var sv ssa.Value = lk
+						if lk.CommaOk {
+							sv = nil
+							for _, r := range *lk.Referrers() {
+								if ex, ok := r.(*ssa.Extract); ok && ex.Index == 0 {
+									sv = ex
+								}
+							}
+						}
+						if sv != nil {
+							sets[sv] = true
+							guards = append(guards, c08LenZeroEdges(g, sv)...)
+						}
+					})
+					for idx := 0; idx < g.Signature.Results().Len(); idx++ {
+						if types.Identical(g.Signature.Results().At(idx).Type(), types.Typ[types.Bool]) && (c09TrueImplies(g, idx, guards, nil) || c09IsLenZeroResult(g, idx, sets)) {
+							return idx, true
+						}
+					}
+				}
+				return 0, false
+			})
+			empty = append(empty, te...)
 			ok := c09Guarded(ap.(ssa.Instruction), empty)
 			c.Check(R3, fn+"|dangling-only-without-predecessors", ap.Pos(), ok, ifelse(ok, "a successor is reported dangling only on the len(predecessors[successor]) == 0 edge", "a successor is reported as dangling although other nodes may still point to it (it would be deleted under a surviving parent)"))
 			ok = c09Guarded(ap.(ssa.Instruction), present)
@@ -582,6 +669,29 @@ func c09R3Remove(c *Ctx, R3 string) {
 	if n == 0 {
 		c.LostAnchor(R3, fn+": append of a dangling node to the result")
 	}
+}
+
+// c09IsLenZeroResult: result idx of g is the predicate `len(set) == 0` itself on every return.
+func c09IsLenZeroResult(g *ssa.Function, idx int, sets map[ssa.Value]bool) bool {
+	atoms := RetAtoms(g, idx)
+	if len(atoms) == 0 {
+		return false
+	}
+	for _, a := range atoms {
+		bo, ok := a.Val.(*ssa.BinOp)
+		if !ok {
+			return false
+		}
+		ln, ok := bo.X.(*ssa.Call)
+		if !ok || CalleeName(ln) != "builtin:len" || !sets[ln.Call.Args[0]] {
+			return false
+		}
+		k, ok := constInt(bo.Y)
+		if !ok || !((bo.Op == token.EQL && k == 0) || (bo.Op == token.LSS && k == 1) || (bo.Op == token.LEQ && k == 0)) {
+			return false
+		}
+	}
+	return true
 }
 
 // (e) isTagged: a lone digest self-reference does not count as a tag.
@@ -620,29 +730,149 @@ func c09R3IsTagged(c *Ctx, R3 string, h *c09Helpers) {
 		return
 	}
 	ok, why := true, ""
+	inEdges := func(e Edge, es []Edge) bool {
+		for _, x := range es {
+			if x == e {
+				return true
+			}
+		}
+		return false
+	}
 	for _, a := range RetAtoms(f, 0) {
-		thr, known := c09LenThreshold(a.Val, set)
+		alts, known := c09LenCompare(a.Val, set)
 		if !known {
-			c.Undecided(R3, key, a.Ret.Pos(), "result "+describe(a.Val)+" is not a comparison of len(tagSet) with a constant")
+			c.Undecided(R3, key, a.Ret.Pos(), "result "+describe(a.Val)+" is not a comparison of len(tagSet) (plus a constant) with a constant")
 			return
 		}
-		onSelf := AtomMustPass(a, newCut().Edges(selfT...))
-		onOther := AtomMustPass(a, newCut().Edges(selfF...))
-		switch {
-		case onSelf && !onOther:
-			if thr != 2 {
-				ok, why = false, fmt.Sprintf("when the set contains the digest itself the result is len(tagSet) >= %d, expected >= 2", thr)
+		for _, alt := range alts {
+			var onSelf, onOther bool
+			if alt.via != nil {
+				term := alt.via.From.Instrs[len(alt.via.From.Instrs)-1]
+				onSelf = inEdges(*alt.via, selfT) || MustPass(term, newCut().Edges(selfT...))
+				onOther = inEdges(*alt.via, selfF) || MustPass(term, newCut().Edges(selfF...))
+			} else {
+				onSelf = AtomMustPass(a, newCut().Edges(selfT...))
+				onOther = AtomMustPass(a, newCut().Edges(selfF...))
 			}
-		case onOther && !onSelf:
-			if thr != 1 {
-				ok, why = false, fmt.Sprintf("when the set does not contain the digest the result is len(tagSet) >= %d, expected >= 1", thr)
+			switch {
+			case onSelf && !onOther:
+				if alt.thr != 2 {
+					ok, why = false, fmt.Sprintf("when the set contains the digest itself the result is len(tagSet) >= %d, expected >= 2", alt.thr)
+				}
+			case onOther && !onSelf:
+				if alt.thr != 1 {
+					ok, why = false, fmt.Sprintf("when the set does not contain the digest the result is len(tagSet) >= %d, expected >= 1", alt.thr)
+				}
+			default:
+				c.Undecided(R3, key, a.Ret.Pos(), "a result is not decided by the contains-own-digest test")
+				return
 			}
-		default:
-			c.Undecided(R3, key, a.Ret.Pos(), "a result is not decided by the contains-own-digest test")
-			return
 		}
 	}
 	c.Check(R3, key, f.Pos(), ok, ifelse(ok, "tagged iff the tag set holds a reference other than the descriptor's own digest", why))
+}
+
+// c09LenAlt: the compared value is equivalent to len(set) >= thr when control
+// arrived over phi edge via (nil: unconditionally).
+type c09LenAlt struct {
+	thr int64
+	via *Edge
+}
+
+// c09LenCompare: v is `E OP k` with E = len(set) + constant, possibly a phi of
+// such expressions (`n := len(s); if c { n-- }; return n > 0`).
+func c09LenCompare(v ssa.Value, set map[ssa.Value]bool) ([]c09LenAlt, bool) {
+	bo, ok := v.(*ssa.BinOp)
+	if !ok {
+		return nil, false
+	}
+	type lin struct {
+		off int64
+		via *Edge
+	}
+	var linear func(x ssa.Value, depth int) ([]lin, bool)
+	linear = func(x ssa.Value, depth int) ([]lin, bool) {
+		if depth > 4 {
+			return nil, false
+		}
+		switch u := x.(type) {
+		case *ssa.Call:
+			if CalleeName(u) == "builtin:len" && set[u.Call.Args[0]] {
+				return []lin{{0, nil}}, true
+			}
+		case *ssa.BinOp:
+			if k, isC := constInt(u.Y); isC && (u.Op == token.ADD || u.Op == token.SUB) {
+				ls, ok := linear(u.X, depth+1)
+				if !ok {
+					return nil, false
+				}
+				for i := range ls {
+					if u.Op == token.ADD {
+						ls[i].off += k
+					} else {
+						ls[i].off -= k
+					}
+				}
+				return ls, true
+			}
+		case *ssa.Phi:
+			var out []lin
+			for i, e := range u.Edges {
+				ls, ok := linear(e, depth+1)
+				if !ok {
+					return nil, false
+				}
+				edge := Edge{u.Block().Preds[i], u.Block()}
+				for _, l := range ls {
+					if l.via == nil {
+						ed := edge
+						l.via = &ed
+					}
+					out = append(out, l)
+				}
+			}
+			return out, true
+		}
+		return nil, false
+	}
+	k, isC := constInt(bo.Y)
+	ls, okL := linear(bo.X, 0)
+	op := bo.Op
+	if !isC || !okL {
+		// constant on the left: k OP E
+		k, isC = constInt(bo.X)
+		ls, okL = linear(bo.Y, 0)
+		if !isC || !okL {
+			return nil, false
+		}
+		switch op {
+		case token.LSS:
+			op = token.GTR
+		case token.LEQ:
+			op = token.GEQ
+		case token.NEQ:
+		default:
+			return nil, false
+		}
+	}
+	var out []c09LenAlt
+	for _, l := range ls {
+		// len + off OP k
+		switch op {
+		case token.GTR:
+			out = append(out, c09LenAlt{k - l.off + 1, l.via})
+		case token.GEQ:
+			out = append(out, c09LenAlt{k - l.off, l.via})
+		case token.NEQ:
+			if k-l.off != 0 {
+				return nil, false
+			}
+			out = append(out, c09LenAlt{1, l.via})
+		default:
+			return nil, false
+		}
+	}
+	return out, true
 }
 
 // c09LenThreshold: v is `len(set) OP k`; returns t such that v == (len(set) >= t).
@@ -695,89 +925,133 @@ func c09R4(c *Ctx) {
 	if h == nil {
 		return
 	}
-	gc := h.gc
-	gn := FnName(gc)
+	gn := FnName(h.gc) // keys are anchored at the exported operation
 	if h.gcIndex == nil {
-		c.LostAnchor(R4, gn+": callee that rebuilds and replaces s.tagResolver (gcIndex)")
+		c.LostAnchor(R4, gn+": function that rebuilds and replaces s.tagResolver (gcIndex)")
 		return
 	}
-	recv := ssa.Value(gc.Params[0])
-	gcCalls := CallsTo(gc, fnFullName(h.gcIndex))
-	var gcOK []Edge
-	for _, g := range gcCalls {
-		if e := ErrOf(g); e != nil {
-			ne, _, _ := NilTests(gc, Aliases(e))
-			gcOK = append(gcOK, ne...)
-		}
-	}
-	var removes []ssa.CallInstruction
-	for _, call := range Calls(gc, func(n string) bool { return n == "os.Remove" || n == "os.RemoveAll" || n == "(*os.Root).Remove" }) {
-		removes = append(removes, call)
-	}
-	if len(removes) == 0 {
+	if len(h.sweepHosts) == 0 {
 		c.LostAnchor(R4, gn+": removal of unreachable blobs (os.Remove)")
 		return
 	}
-	graphLoads := c09FieldLoads(gc, recv, "graph")
-	for i, rm := range removes {
-		sfx := ""
-		if i > 0 {
-			sfx = fmt.Sprintf("#%d", i+1)
+	// reachSet: v is (through parameters of unexported helpers) the result of s.graph.DigestSet()
+	reachSet := func(v ssa.Value) ([]*ssa.Call, bool) {
+		os, ok := c09Origins(c.P, v, 3, nil)
+		if !ok || len(os) == 0 {
+			return nil, false
 		}
-		at := rm.(ssa.Instruction)
-		// the digest tested: Contains(S, d) on whose false edge the removal sits
-		var okKey = gn + "|remove-only-unreachable" + sfx
-		_, notIn, cs := CallTests(gc, "(~/internal/container/set.Set[T]).Contains", func(x *ssa.Call) bool {
-			ds, ok := Roots(x.Call.Args[0])[0].(*ssa.Call)
-			return ok && CalleeName(ds) == c09nDigestSet && graphLoads[ds.Call.Args[0]]
-		})
-		if !c.Check(R4, okKey, rm.Pos(), c09Guarded(at, notIn), ifelse(c09Guarded(at, notIn),
-			"the blob is removed only on the !reachable.Contains(digest) edge, reachable = s.graph.DigestSet()",
-			"a blob file is removed without the test that its digest is absent from s.graph.DigestSet(): reachable content can be deleted")) {
-			continue
+		var out []*ssa.Call
+		for _, o := range os {
+			rs := Roots(o)
+			if len(rs) != 1 {
+				return nil, false
+			}
+			ds, isCall := rs[0].(*ssa.Call)
+			if !isCall || CalleeName(ds) != c09nDigestSet || !c08StoreFieldLoads(ds.Parent(), h.store, "graph")[ds.Call.Args[0]] {
+				return nil, false
+			}
+			out = append(out, ds)
 		}
-		for _, x := range cs {
-			ds := Roots(x.Call.Args[0])[0].(*ssa.Call)
-			ok := len(gcCalls) > 0 && MustPass(ds, newCut().Calls(gcCalls)) && MustPass(ds, newCut().Edges(gcOK...))
-			c.Check(R4, gn+"|reachable-set-after-gcIndex"+sfx, ds.Pos(), ok, ifelse(ok, "DigestSet() is taken after the index was rebuilt successfully", "the reachable set is computed before (or without) a successful rebuild of the index: the sweep uses stale reachability"))
-			d := x.Call.Args[1]
-			// valid digest name
-			var valid []Edge
-			for _, vc := range CallsTo(gc, "(digest.Digest).Validate") {
-				if c09SameKey(vc.Common().Args[0], d) {
-					ne, _, _ := NilTests(gc, Aliases(vc.Value()))
-					valid = append(valid, ne...)
+		return out, true
+	}
+	containsTests := func(fn *ssa.Function) (notIn []Edge, calls []*ssa.Call) {
+		_, notIn, calls = CallTests(fn, "(~/internal/container/set.Set[T]).Contains", func(x *ssa.Call) bool { _, ok := reachSet(x.Call.Args[0]); return ok })
+		return
+	}
+	rebuilt := func(fn *ssa.Function, _ c09Vals) []Edge {
+		var out []Edge
+		for _, g := range CallsTo(fn, fnFullName(h.gcIndex)) {
+			if e := ErrOf(g); e != nil {
+				ne, _, _ := NilTests(fn, Aliases(e))
+				out = append(out, ne...)
+			}
+		}
+		return out
+	}
+	n := 0
+	for _, host := range h.sweepHosts {
+		for _, rm := range Calls(host, func(n string) bool { return n == "os.Remove" || n == "os.RemoveAll" || n == "(*os.Root).Remove" }) {
+			n++
+			sfx := ""
+			if n > 1 {
+				sfx = fmt.Sprintf("#%d", n)
+			}
+			// T: the function that tests reachability — the host, or its (single-level) caller
+			T, atT := host, rm.(ssa.Instruction)
+			pathVals := []ssa.Value{rm.Common().Args[0]}
+			if ne, _ := containsTests(host); len(ne) == 0 {
+				if sites, closed := c09CallSites(c.P, host); closed && len(sites) == 1 {
+					T, atT = sites[0].Parent(), sites[0].(ssa.Instruction)
+					pathVals = sites[0].Common().Args
 				}
 			}
-			ok = c09Guarded(at, valid)
-			c.Check(R4, gn+"|remove-only-valid-digest-names"+sfx, rm.Pos(), ok, ifelse(ok, "entries whose name is not a valid digest are skipped", "a directory entry whose name is not a valid digest can be removed"))
-			// d = NewDigestFromEncoded(alg, name): name flows into the removed path, alg is a known algorithm
-			var mk *ssa.Call
-			for _, r := range Roots(d) {
-				if call, ok := r.(*ssa.Call); ok && CalleeName(call) == "digest.NewDigestFromEncoded" {
-					mk = call
-				}
-			}
-			if mk == nil {
-				c.Undecided(R4, gn+"|removed-file-is-the-tested-digest"+sfx, rm.Pos(), "the tested digest is not built with digest.NewDigestFromEncoded(alg, name)")
+			notIn, cs := containsTests(T)
+			okG := c09Guarded(atT, notIn)
+			if !c.Check(R4, gn+"|remove-only-unreachable"+sfx, rm.Pos(), okG, ifelse(okG,
+				"the blob is removed only on the !reachable.Contains(digest) edge, reachable = s.graph.DigestSet()",
+				"a blob file is removed without the test that its digest is absent from s.graph.DigestSet(): reachable content can be deleted")) {
 				continue
 			}
-			alg, name := strip(mk.Call.Args[0]), mk.Call.Args[1]
-			ok = c09Uses(rm.Common().Args[0], name, 0) && c09Uses(rm.Common().Args[0], alg, 0)
-			c.Check(R4, gn+"|removed-file-is-the-tested-digest"+sfx, rm.Pos(), ok, ifelse(ok, "the removed path is built from the algorithm directory and entry name whose digest was tested", "the removed path is not derived from the entry whose digest was tested"))
-			var known []Edge
-			for _, i := range Ifs(gc) {
-				cond, t, _ := ifEdges(i)
-				call, isCall := cond.(*ssa.Call)
-				if !isCall || len(call.Call.Args) != 1 || !c09SameKey(call.Call.Args[0], alg) {
+			for _, x := range cs {
+				dss, _ := reachSet(x.Call.Args[0])
+				ok := len(dss) > 0
+				var dsPos = x.Pos()
+				for _, ds := range dss {
+					dsPos = ds.Pos()
+					if !c09GuardedUp(c.P, ds, nil, rebuilt, 2) {
+						ok = false
+					}
+				}
+				c.Check(R4, gn+"|reachable-set-after-gcIndex"+sfx, dsPos, ok, ifelse(ok, "DigestSet() is taken after the index was rebuilt successfully", "the reachable set is computed before (or without) a successful rebuild of the index: the sweep uses stale reachability"))
+				d := x.Call.Args[1]
+				// valid digest name
+				var valid []Edge
+				for _, vc := range CallsTo(T, "(digest.Digest).Validate") {
+					if c09SameKey(vc.Common().Args[0], d) {
+						ne, _, _ := NilTests(T, Aliases(vc.Value()))
+						valid = append(valid, ne...)
+					}
+				}
+				ok = c09Guarded(atT, valid)
+				c.Check(R4, gn+"|remove-only-valid-digest-names"+sfx, rm.Pos(), ok, ifelse(ok, "entries whose name is not a valid digest are skipped", "a directory entry whose name is not a valid digest can be removed"))
+				// d = NewDigestFromEncoded(alg, name): name flows into the removed path, alg is a known algorithm
+				var mk *ssa.Call
+				for _, r := range Roots(d) {
+					if call, ok := r.(*ssa.Call); ok && CalleeName(call) == "digest.NewDigestFromEncoded" {
+						mk = call
+					}
+				}
+				if mk == nil {
+					c.Undecided(R4, gn+"|removed-file-is-the-tested-digest"+sfx, rm.Pos(), "the tested digest is not built with digest.NewDigestFromEncoded(alg, name)")
 					continue
 				}
-				if g := StaticCallee(call); g != nil && inModule(g) && len(StringConstsComparedWith(g, func(ssa.Value) bool { return true })) > 0 {
-					known = append(known, t)
+				alg, name := strip(mk.Call.Args[0]), mk.Call.Args[1]
+				usesName, usesAlg := false, false
+				for _, pv := range pathVals {
+					usesName = usesName || c09Uses(pv, name, 0)
+					usesAlg = usesAlg || c09Uses(pv, alg, 0)
 				}
+				ok = usesName && usesAlg
+				c.Check(R4, gn+"|removed-file-is-the-tested-digest"+sfx, rm.Pos(), ok, ifelse(ok, "the removed path is built from the algorithm directory and entry name whose digest was tested", "the removed path is not derived from the entry whose digest was tested"))
+				ok = c09GuardedUp(c.P, atT, c09Vals{"alg": alg}, func(fn *ssa.Function, v c09Vals) []Edge {
+					if v["alg"] == nil {
+						return nil
+					}
+					var known []Edge
+					for _, i := range Ifs(fn) {
+						cond, t, _ := ifEdges(i)
+						call, isCall := cond.(*ssa.Call)
+						if !isCall || len(call.Call.Args) != 1 || !c09ValEq(strip(call.Call.Args[0]), v["alg"]) {
+							continue
+						}
+						if g := StaticCallee(call); g != nil && inModule(g) && len(StringConstsComparedWith(g, func(ssa.Value) bool { return true })) > 0 {
+							known = append(known, t)
+						}
+					}
+					return known
+				}, 2)
+				c.Check(R4, gn+"|remove-only-in-known-algorithm-dirs"+sfx, rm.Pos(), ok, ifelse(ok, "directories that are not a supported digest algorithm are skipped", "files below a directory that is not a supported algorithm can be removed"))
 			}
-			ok = c09Guarded(at, known)
-			c.Check(R4, gn+"|remove-only-in-known-algorithm-dirs"+sfx, rm.Pos(), ok, ifelse(ok, "directories that are not a supported digest algorithm are skipped", "files below a directory that is not a supported algorithm can be removed"))
 		}
 	}
 	c09R4GcIndex(c, R4, h)
@@ -806,105 +1080,167 @@ func c09R4GcIndex(c *Ctx, R4 string, h *c09Helpers) {
 		return
 	}
 	pass1 := 0
-	for _, l := range Loops(f) {
-		_, next, _, _, ok := l.RangeMap()
-		if !ok {
-			continue
-		}
-		var k, v ssa.Value
-		for _, r := range *next.Referrers() {
-			if e, ok := r.(*ssa.Extract); ok {
-				if e.Index == 1 {
-					k = e
-				} else if e.Index == 2 {
-					v = e
+	gcIndexFn := f
+	origNewRes, origNewGraph := newRes, newGraph
+	for _, f := range c09ReachableInPkg(gcIndexFn, 2) {
+		// the rebuilt resolver / graph as seen in f: the values themselves, or the parameters they are passed in
+		newRes, newGraph := origNewRes, origNewGraph
+		if f != gcIndexFn {
+			newRes, newGraph = nil, nil
+			for _, prm := range f.Params {
+				os, ok := c09Origins(c.P, prm, 2, gcIndexFn)
+				if !ok || len(os) == 0 {
+					continue
+				}
+				allRes, allGraph := true, true
+				for _, o := range os {
+					allRes = allRes && c09SameKey(o, origNewRes)
+					allGraph = allGraph && c09SameKey(o, origNewGraph)
+				}
+				if allRes {
+					newRes = prm
+				}
+				if allGraph {
+					newGraph = prm
 				}
 			}
-		}
-		if k == nil || v == nil {
-			continue
-		}
-		obj := c09DescObjOf(v)
-		// the ref != digest edge
-		var neq []Edge
-		for _, i := range Ifs(f) {
-			if !l.Blocks[i.Block()] {
+			if newRes == nil || newGraph == nil {
 				continue
 			}
-			cond, t, fe := ifEdges(i)
-			bo, ok := cond.(*ssa.BinOp)
-			if !ok || (bo.Op != token.EQL && bo.Op != token.NEQ) {
+		}
+		for _, l := range Loops(f) {
+			_, next, _, _, ok := l.RangeMap()
+			if !ok {
 				continue
 			}
-			isDg := func(x ssa.Value) bool {
-				call, ok := x.(*ssa.Call)
-				return ok && CalleeName(call) == "(digest.Digest).String" && obj.fieldOf(call.Call.Args[0], "Digest")
-			}
-			if (c09SameKey(bo.X, k) && isDg(bo.Y)) || (c09SameKey(bo.Y, k) && isDg(bo.X)) {
-				if bo.Op == token.NEQ {
-					neq = append(neq, t)
-				} else {
-					neq = append(neq, fe)
+			var k, v ssa.Value
+			for _, r := range *next.Referrers() {
+				if e, ok := r.(*ssa.Extract); ok {
+					if e.Index == 1 {
+						k = e
+					} else if e.Index == 2 {
+						v = e
+					}
 				}
 			}
-		}
-		// is this pass 1?  it tags by the range key
-		var tagRef, tagDg, idx []ssa.Instruction
-		for _, tc := range CallsTo(f, c09nTag) {
-			if !l.Contains(tc.(ssa.Instruction)) || !c09SameKey(tc.Common().Args[0], newRes) {
+			if k == nil || v == nil {
 				continue
 			}
-			ref := tc.Common().Args[3]
-			if c09SameKey(ref, k) {
-				tagRef = append(tagRef, tc.(ssa.Instruction))
-			} else if call, ok := ref.(*ssa.Call); ok && CalleeName(call) == "(digest.Digest).String" && obj.fieldOf(call.Call.Args[0], "Digest") {
-				tagDg = append(tagDg, tc.(ssa.Instruction))
+			obj := c09DescObjOf(v)
+			// the ref != digest edge
+			var neq []Edge
+			for _, i := range Ifs(f) {
+				if !l.Blocks[i.Block()] {
+					continue
+				}
+				cond, t, fe := ifEdges(i)
+				bo, ok := cond.(*ssa.BinOp)
+				if !ok || (bo.Op != token.EQL && bo.Op != token.NEQ) {
+					continue
+				}
+				isDg := func(x ssa.Value) bool { return c09DigestString(obj, x) || c09DigestString(obj, strip(x)) }
+				if (c09SameKey(bo.X, k) && isDg(bo.Y)) || (c09SameKey(bo.Y, k) && isDg(bo.X)) {
+					if bo.Op == token.NEQ {
+						neq = append(neq, t)
+					} else {
+						neq = append(neq, fe)
+					}
+				}
 			}
-		}
-		for _, ic := range CallsTo(f, c09nIndexAll) {
-			if l.Contains(ic.(ssa.Instruction)) && c09SameKey(ic.Common().Args[0], newGraph) {
-				idx = append(idx, ic.(ssa.Instruction))
+			// the effects of this pass, performed directly or by an extracted helper
+			inObj := func(v ssa.Value) bool { return v != nil && (obj.vals[v] || obj.vals[strip(v)]) }
+			digestStringOfObj := func(x ssa.Value, bind c09Bind) bool {
+				call, ok := strip(x).(*ssa.Call)
+				var dg ssa.Value
+				if ok && CalleeName(call) == "(digest.Digest).String" {
+					dg = call.Call.Args[0]
+				} else if cv, isCv := x.(*ssa.Convert); isCv {
+					dg = cv.X
+				} else if ct, isCt := x.(*ssa.ChangeType); isCt {
+					dg = ct.X
+				}
+				return dg != nil && inObj(bind(c09FieldBase(dg, "Digest")))
 			}
-		}
-		if len(tagRef) > 0 {
-			pass1++
-			if len(neq) == 0 {
-				c.Undecided(R4, fn+"|pass1-keeps-tagged-entries", blockPos(l.Header), "the ref != digest test of the first pass is not recognised")
+			inLoop := func(ins []ssa.Instruction) []ssa.Instruction {
+				var out []ssa.Instruction
+				for _, in := range ins {
+					if l.Contains(in) {
+						out = append(out, in)
+					}
+				}
+				return out
+			}
+			tagRef := inLoop(c09EffectSites(f, c09Identity, func(call ssa.CallInstruction, bind c09Bind) bool {
+				a := call.Common().Args
+				return CalleeName(call) == c09nTag && len(a) == 4 && bind(a[0]) != nil && c09SameKey(bind(a[0]), newRes) && bind(a[3]) != nil && c09SameKey(bind(a[3]), k) && inObj(bind(a[2]))
+			}, 2))
+			tagDg := inLoop(c09EffectSites(f, c09Identity, func(call ssa.CallInstruction, bind c09Bind) bool {
+				a := call.Common().Args
+				return CalleeName(call) == c09nTag && len(a) == 4 && bind(a[0]) != nil && c09SameKey(bind(a[0]), newRes) && digestStringOfObj(a[3], bind)
+			}, 2))
+			idx := inLoop(c09EffectSites(f, c09Identity, func(call ssa.CallInstruction, bind c09Bind) bool {
+				a := call.Common().Args
+				return CalleeName(call) == c09nIndexAll && len(a) == 4 && bind(a[0]) != nil && c09SameKey(bind(a[0]), newGraph)
+			}, 2))
+			if len(tagRef) > 0 {
+				pass1++
+				if len(neq) == 0 {
+					c.Undecided(R4, fn+"|pass1-keeps-tagged-entries", blockPos(l.Header), "the ref != digest test of the first pass is not recognised")
+					continue
+				}
+				header := l.Header.Instrs[0]
+				for _, req := range []struct {
+					what string
+					ins  []ssa.Instruction
+				}{{"tag-by-ref", tagRef}, {"tag-by-digest", tagDg}, {"index-all", idx}} {
+					ok := len(req.ins) > 0
+					for _, e := range neq {
+						if reach(e.To, 0, header, newCut().Instr(req.ins...)) {
+							ok = false
+						}
+					}
+					c.Check(R4, fn+"|pass1-keeps-tagged-entries:"+req.what, blockPos(l.Header), ok, ifelse(ok,
+						"every ref != digest entry that continues the loop went through "+req.what+" on the new resolver/graph",
+						"a tagged entry (ref != digest) can be skipped without "+req.what+": GC would drop a tag or treat tagged content as garbage"))
+				}
 				continue
 			}
-			header := l.Header.Instrs[0]
-			for _, req := range []struct {
-				what string
-				ins  []ssa.Instruction
-			}{{"tag-by-ref", tagRef}, {"tag-by-digest", tagDg}, {"index-all", idx}} {
-				ok := len(req.ins) > 0
-				for _, e := range neq {
-					if reach(e.To, 0, header, newCut().Instr(req.ins...)) {
+			// pass 2: digest-only entries are kept only under graph.Exists(subject)
+			if len(tagDg) > 0 {
+				exT, _, _ := CallTests(f, c09nExists, func(x *ssa.Call) bool { return c09SameKey(x.Call.Args[0], newGraph) })
+				// … or a helper that answers true only on newGraph.Exists(...) == true
+				te, _ := c09BoolCallEdges(f, func(call *ssa.Call, g *ssa.Function) (int, bool) {
+					if fnPkgPath(g) != fnPkgPath(f) {
+						return 0, false
+					}
+					for i, a := range call.Call.Args {
+						if i >= len(g.Params) || !c09SameKey(a, newGraph) {
+							continue
+						}
+						inner, _, _ := CallTests(g, c09nExists, func(x *ssa.Call) bool { pf, pi := c09ParamOf(x.Call.Args[0]); return pf == g && pi == i })
+						for idx := 0; idx < g.Signature.Results().Len(); idx++ {
+							if types.Identical(g.Signature.Results().At(idx).Type(), types.Typ[types.Bool]) && len(inner) > 0 && c09TrueImplies(g, idx, inner, nil) {
+								return idx, true
+							}
+						}
+					}
+					return 0, false
+				})
+				exT = append(exT, te...)
+				ok := true
+				for _, t := range append(append([]ssa.Instruction{}, tagDg...), idx...) {
+					if !c09Guarded(t, exT) {
 						ok = false
 					}
 				}
-				c.Check(R4, fn+"|pass1-keeps-tagged-entries:"+req.what, blockPos(l.Header), ok, ifelse(ok,
-					"every ref != digest entry that continues the loop went through "+req.what+" on the new resolver/graph",
-					"a tagged entry (ref != digest) can be skipped without "+req.what+": GC would drop a tag or treat tagged content as garbage"))
-			}
-			continue
-		}
-		// pass 2: digest-only entries are kept only under graph.Exists(subject)
-		if len(tagDg) > 0 {
-			exT, _, _ := CallTests(f, c09nExists, func(x *ssa.Call) bool { return c09SameKey(x.Call.Args[0], newGraph) })
-			ok := true
-			for _, t := range append(append([]ssa.Instruction{}, tagDg...), idx...) {
-				if !c09Guarded(t, exT) {
-					ok = false
+				if !ok && len(exT) > 0 {
+					c.Undecided(R4, fn+"|pass2-keeps-only-referrers-of-kept-nodes", blockPos(l.Header), "the second pass consults newGraph.Exists but the rule cannot show that an untagged entry is kept only when it answered true (condition shape not recognised)")
+					continue
 				}
+				c.Check(R4, fn+"|pass2-keeps-only-referrers-of-kept-nodes", blockPos(l.Header), ok, ifelse(ok,
+					"an untagged entry is re-tagged/re-indexed only on the newGraph.Exists(subject) edge",
+					"an untagged entry is kept without its subject chain reaching the rebuilt graph: garbage survives GC"))
 			}
-			if !ok && len(exT) > 0 {
-				c.Undecided(R4, fn+"|pass2-keeps-only-referrers-of-kept-nodes", blockPos(l.Header), "the second pass consults newGraph.Exists but the rule cannot show that an untagged entry is kept only when it answered true (condition shape not recognised)")
-				continue
-			}
-			c.Check(R4, fn+"|pass2-keeps-only-referrers-of-kept-nodes", blockPos(l.Header), ok, ifelse(ok,
-				"an untagged entry is re-tagged/re-indexed only on the newGraph.Exists(subject) edge",
-				"an untagged entry is kept without its subject chain reaching the rebuilt graph: garbage survives GC"))
 		}
 	}
 	if pass1 == 0 {
@@ -1097,8 +1433,8 @@ var c09Mutants = []Mutant{
 	{Name: "sweep-removes-reachable", File: "content/oci/oci.go", Old: "\t\t\tif !reachableNodes.Contains(blobDigest) {", New: "\t\t\tif !reachableNodes.Contains(blobDigest) || alg == \"sha512\" {",
 		Expect: "C09.R4.sweep-guard|(*~/content/oci.Store).GC|remove-only-unreachable"},
 	{Name: "reachable-set-before-reload", File: "content/oci/oci.go",
-		Old:    "\terr := s.gcIndex(ctx)\n\tif err != nil {\n\t\treturn fmt.Errorf(\"unable to reload index: %w\", err)\n\t}\n\treachableNodes := s.graph.DigestSet()\n",
-		New:    "\treachableNodes := s.graph.DigestSet()\n\terr := s.gcIndex(ctx)\n\tif err != nil {\n\t\treturn fmt.Errorf(\"unable to reload index: %w\", err)\n\t}\n",
+		Old:    "\terr := s.gcIndex(ctx)\n\tif err != nil {\n\t\treturn fmt.Errorf(\"unable to reload index: %w\", err)\n\t}\n\tif s.AutoSaveIndex {\n\t\tif err := s.saveIndex(); err != nil {\n\t\t\treturn err\n\t\t}\n\t}\n\treachableNodes := s.graph.DigestSet()\n",
+		New:    "\treachableNodes := s.graph.DigestSet()\n\terr := s.gcIndex(ctx)\n\tif err != nil {\n\t\treturn fmt.Errorf(\"unable to reload index: %w\", err)\n\t}\n\tif s.AutoSaveIndex {\n\t\tif err := s.saveIndex(); err != nil {\n\t\t\treturn err\n\t\t}\n\t}\n",
 		Expect: "C09.R4.sweep-guard|(*~/content/oci.Store).GC|reachable-set-after-gcIndex"},
 	{Name: "sweep-ignores-gcindex-error", File: "content/oci/oci.go",
 		Old:    "\terr := s.gcIndex(ctx)\n\tif err != nil {\n\t\treturn fmt.Errorf(\"unable to reload index: %w\", err)\n\t}\n",
